@@ -1,9 +1,10 @@
 import pathlib
 from typing import Sequence
 
+from visions.backends.shared.utilities import path_exists
 from visions.types.file import File
 
 
 @File.contains_op.register
 def file_contains(sequence: Sequence, state: dict) -> bool:
-    return all(isinstance(p, pathlib.Path) and p.exists() for p in sequence)
+    return all(isinstance(p, pathlib.Path) and path_exists(p) for p in sequence)
